@@ -48,6 +48,7 @@ def run(ctx: Context) -> None:
         _infra913.mesh_fill_value(ctx, 'R09.13')
         _infra913.mesh_table_dimension_tests(ctx, 'R09.13')
         _infra913.ugrid_inventory(ctx, 'R09.13')
+        _infra913.cf_inventory_bounds(ctx, 'R09.13')
     ctx.rule('R09.12', "update_connectivity refuses a table only when it does not have the primary dimension at all (a table stored the other way round is transposed, not refused)", floor=1)
     with ctx.section('R09.12'):
         from . import infra as _infra912
